@@ -317,7 +317,8 @@ def recorded_locs(repo, col, R):
         if not sts:
             col.bad(R, ap, f"`{which}_locs` is recorded", f"the column `{which}_locs` of the new synapse rows is no longer filled", node=ap.node)
             continue
-        v = idx.inline(repo, ap, sts[0].value, value_only=True, keep=("loc_of_index",))
+        from sa.terms import fuse_comprehensions as _fuse
+        v = _fuse(idx.inline(repo, ap, sts[0].value, value_only=True, keep=("loc_of_index",)))   # `a, b = [f(x) for x in (p, q)]` is a = f(p), b = f(q)
         call = T.find(v, lambda x: x.op == "call" and x.name == "loc_of_index")
         srcs = {x.name for a_ in (call.args[:2] if call is not None else []) for x in a_.walk() if x.op == "param"}
         col.check(call is not None and srcs == {f"{which}_nodes"}, R, ap, f"`{which}_locs` is computed from the {which}synaptic rows",
@@ -471,8 +472,9 @@ def _case_lengths(expr: ast.AST, listname: str):
     return None
 
 
-def _case_lengths_t(t: T):
-    """Length of the term `hstack(X) if <X non-empty> else []` for len(X) = n in 0..3, or None if not derivable."""
+def _case_lengths_t(t: T, counts=frozenset()):
+    """Length of the term `hstack(X) if <X non-empty> else []` for len(X) = n in 0..3, or None if not derivable.
+    `counts`: keys of terms that ARE the number n of drawn connections (the `size` of the random choices)."""
     STACK = ("hstack", "concatenate", "array", "asarray")
 
     def length(branch, n):
@@ -488,7 +490,7 @@ def _case_lengths_t(t: T):
             neg = not neg
             cnd = cnd.args[0]
         r = None
-        if cnd.op == "cmp" and len(cnd.args) == 2 and cnd.args[0].op == "call" and cnd.args[0].name == "len" and \
+        if cnd.op == "cmp" and len(cnd.args) == 2 and ((cnd.args[0].op == "call" and cnd.args[0].name == "len") or cnd.args[0].key() in counts) and \
                 cnd.args[1].op == "const" and isinstance(cnd.args[1].name, int):
             k = cnd.args[1].name
             r = {">": n > k, ">=": n >= k, "!=": n != k, "<": n < k, "<=": n <= k, "==": n == k}.get(cnd.name)
@@ -508,6 +510,15 @@ def _case_lengths_t(t: T):
         return out
     if t.op == "mcall" and t.name in ("hstack", "concatenate"):
         return {0: "raises", 1: 1, 2: 2, 3: 3}
+    if t.op == "mcall" and t.name in ("asarray", "array"):
+        # an array made of one SCALAR per drawn connection (`sample_comp(cell)[0]`): length n for every n, the empty one included
+        lst = next((a_ for a_ in t.args if a_.op != "free"), None)
+        while lst is not None and lst.op == "phi":
+            alts = [a_ for a_ in lst.args if a_.op not in ("undef", "carried") and not (a_.op == "list" and not a_.args)]
+            lst = alts[0] if len(alts) == 1 else None
+        el = lst.args[1] if (lst is not None and lst.op == "listacc" and len(lst.args) > 1) else (lst.args[0] if (lst is not None and lst.op == "comp") else None)
+        if el is not None and el.op == "sub" and el.args[1].op == "const" and isinstance(el.args[1].name, int):
+            return {0: 0, 1: 1, 2: 2, 3: 3}
     return None
 
 
@@ -523,7 +534,9 @@ def _sparse(repo, col):
     loc = T.find(post_t, lambda x: x.op == "sub" and x.args[0].op == "attr" and x.args[0].name == "loc")
     if loc is None:
         raise AnalysisError("sparse_connect: the post rows are no longer looked up with .loc[...]")
-    lens = _case_lengths_t(loc.args[1])
+    # the number of drawn connections: what the random choices of the cells are sized with
+    counts = frozenset(q.kw["size"].key() for a_ in c.args[:2] for q in T.find_all(ex.term(a_), lambda x: x.op == "mcall" and x.name == "choice" and x.kw.get("size") is not None))
+    lens = _case_lengths_t(loc.args[1], counts)
     stack = loc.node or c
     if lens is None:
         col.unk("R-C20-length", fi, stack, "length of the stacked post indices is not derivable")
@@ -542,7 +555,7 @@ def _sparse(repo, col):
         neg = False
         while x.op == "not" or (x.op == "unary" and x.name == "Not"):
             neg, x = not neg, x.args[0]
-        if x.op == "cmp" and len(x.args) == 2 and x.args[0].op in ("call", "mcall") and x.args[0].name == "len" and \
+        if x.op == "cmp" and len(x.args) == 2 and ((x.args[0].op in ("call", "mcall") and x.args[0].name == "len") or x.args[0].key() in counts) and \
                 x.args[1].op == "const" and isinstance(x.args[1].name, int):
             k, o = x.args[1].name, x.name
             pos = (o == ">" and k >= 0) or (o == ">=" and k >= 1) or (o == "!=" and k == 0)
@@ -632,7 +645,7 @@ def _matrix(repo, col):
     col.check(dtype_ok, "R-C20-roles", fi, "matrix connect: boolean dtype asserted",
               "dtype == bool", "the dtype assertion is missing", node=fi.node)
     # np.where(matrix) -> (rows, cols) -> (pre, post)
-    w = T.find(post, lambda x: x.op == "mcall" and x.name == "where")
+    w = T.find(post, lambda x: x.op == "mcall" and x.name in ("where", "nonzero"))
     ok_post = False
     sc = T.find(post, lambda x: x.op == "call" and x.name == "sample_comp")
     if sc is not None:
@@ -653,7 +666,7 @@ def _matrix(repo, col):
               "post_cell_inds[to_idx] with (from_idx, to_idx) = np.where(matrix)",
               f"post cells are {post.short(200)}", node=c)
     it = T.find(pre, lambda x: x.op == "sub" and x.args[1].op == "item" and
-                T.find(x.args[1], lambda y: y.op == "mcall" and y.name == "where") is not None)
+                T.find(x.args[1], lambda y: y.op == "mcall" and y.name in ("where", "nonzero")) is not None)
     ok_pre = it is not None and it.args[1].name == 0 and T.find(it.args[0], lambda x: x.op == "param" and x.name == pre_param) is not None
     col.check(ok_pre, "R-C20-roles", fi, "matrix connect: row index selects the pre cell", "pre_cell_inds[from_idx]",
               f"pre cells are {pre.short(200)}", node=c)
@@ -666,13 +679,19 @@ def _matrix(repo, col):
     # (the statement that stacks the sampled post indices -- a local of its own or directly inside the `.loc[...]` lookup)
     stack = next((n for n in walk_no_nested(fi.node) if isinstance(n, ast.Assign) and isinstance(n.targets[0], ast.Name)
                   and ("hstack" in unparse(n.value) or "concatenate" in unparse(n.value))), None)
+    ploc = T.find(post, lambda x: x.op == "sub" and x.args[0].op == "attr" and x.args[0].name == "loc")
+    if stack is None and ploc is not None and _case_lengths_t(ploc.args[1]) is not None:
+        # no stacking statement: the post indices are built some other way whose length is derivable from the term
+        stack = next((n for n in walk_no_nested(fi.node) if isinstance(n, ast.Assign) and ploc.args[1].node is not None and n.value is ploc.args[1].node), None) or c
     if stack is None:
         col.unk("R-C20-length", fi, "matrix connect: stacking of post indices", "not found", node=fi.node)
     else:
-        lens = _case_lengths(stack.value, "")
-        if lens is None:
+        lens = _case_lengths(stack.value, "") if isinstance(stack, ast.Assign) and ("hstack" in unparse(stack.value) or "concatenate" in unparse(stack.value)) else None
+        if lens is None and isinstance(stack, ast.Assign):
             loc_ = T.find(ex.term(stack.value), lambda x: x.op == "sub" and x.args[0].op == "attr" and x.args[0].name == "loc")
             lens = _case_lengths_t(loc_.args[1]) if loc_ is not None else None
+        if lens is None and ploc is not None:
+            lens = _case_lengths_t(ploc.args[1])
         if lens is not None and _empty_case_returns_early(fi, ex, stack, mat):
             lens = dict(lens)
             lens[0] = 0  # the empty request returns before anything is stacked or appended
